@@ -90,7 +90,7 @@ func c02Placements() ([]*zr.Program, []string) {
 }
 
 func checkC02(c *Ctx) {
-	c.rule = "programs: (a) bounded-exhaustive: every placement of one transfer statement (输出, 结束循环, 继续循环) in every 2-level nesting of {如果, 否则, 每当, 遍历-list, 遍历-dict}, inside and outside a method, with display marks before/after every transfer; (b) random statement trees (如果/再如/否则, 每当, 遍历 over list/dict literals and variables with 0/1/2 names, break/continue/输出 at any depth, methods, final expression statement, non-boolean conditions); (c) hand-written programs whose 每当 condition binds its result with 得到 (re-tested on every pass, with 继续循环 / 结束循环 / 输出, nested in 遍历 and in a method; 输出 in the body of a 每当 whose condition has an effect, displays, faults or is no longer boolean afterwards; expected value and display written down). Oracle: reference evaluator (result + ordered display trace); termination by evaluator tick budget 50x the reference step count. distinct_nontrivial = distinct (family, feature set / placement, outcome kind)"
+	c.rule = "programs: (a) bounded-exhaustive: every placement of one transfer statement (输出, 结束循环, 继续循环) in every 2-level nesting of {如果, 否则, 每当, 遍历-list, 遍历-dict}, inside and outside a method, with display marks before/after every transfer; (b) random statement trees (如果/再如/否则, 每当, 遍历 over list/dict literals and variables with 0/1/2 names, break/continue/输出 at any depth, methods, final expression statement, non-boolean conditions); (c) hand-written programs whose 每当 condition binds its result with 得到 (re-tested on every pass, with 继续循环 / 结束循环 / 输出, nested in 遍历 and in a method; 输出 in the body of a 每当 whose condition has an effect, displays, faults or is no longer boolean afterwards; expected value and display written down; 遍历 whose loop variable carries the name of something its own header uses: the list itself, the outer element, an argument, an index, an object). Oracle: reference evaluator (result + ordered display trace); termination by evaluator tick budget 50x the reference step count. distinct_nontrivial = distinct (family, feature set / placement, outcome kind)"
 	c.assumptions = []string{"generated programs terminate by construction (loops have literal bounds)", "cases the reference marks unspecified (U1-U9 in DESIGN) are skipped and counted"}
 	rng := c.Rand("c02")
 	progs, shapes := c02Placements()
@@ -125,6 +125,18 @@ func checkC02(c *Ctx) {
 			hp{"while-return/program-level-condition-displays", "如何查？\n\t（显示：“c”）\n\t输出 真\n令次 = 0\n每当 （查）：\n\t次 = 次 + 1\n\t如果 次 == 2：\n\t\t输出 次\n", "num(2)", "c\nc\n"},
 			hp{"while-return/nested-in-iteration", cnt2 + "如何找？\n\t输入物\n\t以项遍历【1，2】：\n\t\t每当 以物（增）：\n\t\t\t输出 项\n\t输出 0\n令果 = （找：器）\n输出【果，器之数】\n", `list[num(1),num(1)]`, ""},
 			hp{"while-return/condition-no-longer-boolean", "如何寻？\n\t令旗 = 真\n\t每当 旗：\n\t\t旗 = 5\n\t\t输出 “完”\n\t输出 “无”\n输出（寻）\n", `text("完")`, ""},
+		)
+		// 遍历 visits the elements of the collection its header names: the header is read before the
+		// loop's own names exist, so a loop variable may carry the name of something the header uses
+		hps = append(hps,
+			hp{"iterate-header/variable-named-like-the-list", "令项 = 【10，20，30】\n令和 = 0\n以项遍历项：\n\t和 = 和 * 10 + 项 / 10\n输出 和\n", "num(123)", ""},
+			hp{"iterate-header/list-visible-again-after", "令项 = 【1，2】\n以项遍历项：\n\t（显示：项）\n输出 项#2\n", "num(2)", "1\n2\n"},
+			hp{"iterate-header/nested-reuse-of-element-name", "令表 = 【【1，2】，【3】，【4，5，6】】\n以序、行遍历表：\n\t以位、行遍历行：\n\t\t（显示：序、位、行）\n输出 0\n", "num(0)", "1 1 1\n1 2 2\n2 1 3\n3 1 4\n3 2 5\n3 3 6\n"},
+			hp{"iterate-header/dictionary-value-name-in-method", "如何列？\n\t输入值\n\t以键、值遍历值：\n\t\t（显示：键、值）\n\t输出 1\n输出（列：【“乙” = 1，“甲” = 2】）\n", "num(1)", "乙 1\n甲 2\n"},
+			hp{"iterate-header/argument-named-like-the-variable", "如何造表？\n\t输入底\n\t输出【底，底 + 1】\n令数 = 5\n以数遍历（造表：数）：\n\t（显示：数）\n输出 数\n", "num(5)", "5\n6\n"},
+			hp{"iterate-header/index-name-used-in-header", "令序 = 2\n令表 = 【【7】，【8，9】】\n以序、项遍历表#序：\n\t（显示：序、项）\n输出 序\n", "num(2)", "1 8\n2 9\n"},
+			hp{"iterate-header/member-of-object-named-like-variable", "定义箱：\n\t其物 = 【4，5】\n令物 = （新建箱）\n以物遍历物之物：\n\t（显示：物）\n输出 物之物\n", "list[num(4),num(5)]", "4\n5\n"},
+			hp{"iterate-header/inside-while-pass", "令项 = 【1，2】\n令次 = 0\n每当 次 < 2：\n\t次 = 次 + 1\n\t以项遍历项：\n\t\t（显示：次、项）\n输出 次\n", "num(2)", "1 1\n1 2\n2 1\n2 2\n"},
 		)
 		hreqs := []Req{}
 		for _, h := range hps {
